@@ -695,6 +695,15 @@ fn step_prepared(ctx: &mut Ctx, sc: &mut dyn ScopeOps) {
                 if n != len {
                     ctx.oracle("C15", format!("commit_slice returned {n} elements, {len} were pushed"));
                 }
+                // C15: the finalised slice holds exactly the elements that were pushed, in order
+                let actual: Vec<u8> = if bytes == 0 { Vec::new() } else { unsafe { std::slice::from_raw_parts(ptr as *const u8, bytes) }.to_vec() };
+                if actual != shadow {
+                    let k = actual.iter().zip(&shadow).position(|(a, b)| a != b).unwrap_or(0);
+                    ctx.oracle(
+                        "C15",
+                        format!("finalising {len} element(s) of {} byte(s) ({}, {}): the returned slice at {ptr:#x} differs from what was pushed at byte {k} (reads {:#04x}, pushed {:#04x})", p.esize, if p.rev { "rev" } else { "forward" }, if p.dyn_ { "dyn" } else { "typed" }, actual[k], shadow[k]),
+                    );
+                }
                 let id = ctx.add_block(ptr, bytes, p.ealign, shadow, Some(e));
                 let d = log_op(ctx, sc, &format!("commit_slice {len}"), &format!("ok {id} {ptr} {bytes}"));
                 c15_advance(ctx, &before, &d, bytes, p.ealign, sc.x_min_align());
